@@ -10,7 +10,7 @@ Proofs/GenTieDersLib Proofs/GenTieDers Proofs/GenTieKnotIns Proofs/GenTieSums Pr
 Proofs/GenTieLU Proofs/GenTieLUSolve Proofs/GenTieKnotRem Proofs/GenTieDegree
 Gen/PreludeExt Gen/LinalgGeom Gen/Voxelize Gen/Utilities Gen/LinalgMat Gen/HelpersB Gen/Fitting
 Proofs/GenTieLib2 Proofs/GenTieGeom Proofs/GenTieVoxel Proofs/GenTieBBox Proofs/GenTieHull
-Proofs/GenTieMat Proofs/GenTieMatSolve Proofs/GenTieBinom Proofs/GenTieElev Proofs/GenTieFit Proofs/GenTieDerivCpts"
+Proofs/GenTieMat Proofs/GenTieMatSolve Proofs/GenTieBinom Proofs/GenTieElev Proofs/GenTieFit Proofs/GenTieDerivCpts Proofs/GenTieArr4 Proofs/GenTieDerivSurf Proofs/GenTieKnotRemove Proofs/GenTieRefine"
 start="$1"; go=1; [ -n "$start" ] && go=0
 for f in $FILES; do
   [ "$f" = "$start" ] && go=1
